@@ -12,7 +12,7 @@ struct Universe
     std::map<std::string, std::string> kindOf;
     std::vector<std::string> order;
 
-    Universe();
+    explicit Universe(bool wide = false); // wide: a fourth variable (specs/ObjectModel/MC_EquivList)
     std::string nameOf(const libcellml::EntityPtr &e) const;
     libcellml::EntityPtr get(const std::string &n) const;
     J project() const; // abstract state through public getters only
